@@ -153,8 +153,9 @@ EXTRA_PROGRAMS: Dict[str, Dict[str, Any]] = {
                                    "k.yaml": {"constants": {"CHANS": 4, "CHANS_PER_BANK": 8, "N": 3, "N2": 7, "N10": 11, "W": 2, "W_H": 5}}},
     "string-constants": {"root.yaml": {"string_constants": {"GREETING": "hello world", "PATHLIKE": "a/b_c-d.e"}, "message_defs": {"MS": {"id": 4101, "fields": {"a": "int32"}}}}},
     "reserved-ids": {"root.yaml": {"message_defs": {"_RESERVED_": {"id": [4200, "4202 - 4204", "4210 to 4211"]}, "MS": {"id": 4201, "fields": {"a": "int8"}}}}},
-    "reserved-in-two-files": {"root.yaml": {"imports": ["lib.yaml"], "message_defs": {"_RESERVED_": {"id": [4300, "4302 - 4303"]}, "MS": {"id": 4301, "fields": {"a": "int8"}}}},
-                              "lib.yaml": {"message_defs": {"_RESERVED_": {"id": ["4310 to 4312"]}, "LM": {"id": 4320, "fields": None}}}},
+    "reserved-in-two-files": {"root.yaml": {"imports": ["lib.yaml"], "message_defs": {"_RESERVED_": {"id": [4300, "4302 - 4303", "4330 - 4331", 4340, "4350 to 4352", "4360 - 4360"]},
+                                                                                  "MS": {"id": 4301, "fields": {"a": "int8"}}}},
+                              "lib.yaml": {"message_defs": {"_RESERVED_": {"id": ["4310 to 4312", "4370 - 4372", 4380, "4390 to 4391", "4395 - 4396"]}, "LM": {"id": 4320, "fields": None}}}},
     "module-and-host-ids": {"root.yaml": {"host_ids": {"LAB_PC": 12, "RIG": 300}, "module_ids": {"PRODUCER": 10, "CONSUMER": 99, "EXTRA": 200},
                                           "message_defs": {"MS": {"id": 4102, "fields": None}}}},
     "all-native-types": {"root.yaml": {"message_defs": {"MS": {"id": 4103, "fields": {f"f{i}": t for i, t in enumerate(defx.NATIVE_NAMES)}}},
